@@ -5,6 +5,7 @@ import (
 	"fmt"
 	"path/filepath"
 	"sort"
+	"strings"
 
 	"github.com/elnosh/gonuts/wallet"
 )
@@ -176,8 +177,16 @@ func (ww *WW) restoreWallet(w string, replace bool, why string) {
 	} else {
 		mints = []string{mintNameOfURL(n.Mint)}
 	}
+	// the user who restores types the mints' URLs; the simulated user types each mint once, in its
+	// plain spelling, also when the wallet had stored a second spelling that a token brought along
+	// (POSTs to "http://A//..." are redirected by the mint's router and arrive as GETs: §16)
+	seenURL := map[string]bool{}
 	for _, m := range mints {
-		urls = append(urls, ww.mintURL(m))
+		u := strings.TrimRight(ww.mintURL(m), "/")
+		if !seenURL[u] {
+			seenURL[u] = true
+			urls = append(urls, u)
+		}
 	}
 	ww.op(fmt.Sprintf("w.restore replace=%v", replace))
 	ww.nRestore++
